@@ -2400,19 +2400,20 @@ func (c *ChannelStateDB) AdvanceCommitChainTail(channel *OpenChannel,
 
 		// Persist the unsigned acked updates that are not included
 		// in their new commitment.
+		//
+		// NOTE: The key is only written once we revoke one of our own
+		// commitments, so it is absent on a channel on which we
+		// haven't done that yet (and for nodes that are upgrading).
+		// In that case there are no unsigned acked updates, but we
+		// still need to persist our local updates below.
+		var unsignedUpdates []LogUpdate
 		updateBytes := chanBucket.Get(unsignedAckedUpdatesKey)
-		if updateBytes == nil {
-			// This shouldn't normally happen as we always store
-			// the number of updates, but could still be
-			// encountered by nodes that are upgrading.
-			newRemoteCommit = &newCommit.Commitment
-			return nil
-		}
-
-		r := bytes.NewReader(updateBytes)
-		unsignedUpdates, err := deserializeLogUpdates(r)
-		if err != nil {
-			return err
+		if updateBytes != nil {
+			r := bytes.NewReader(updateBytes)
+			unsignedUpdates, err = deserializeLogUpdates(r)
+			if err != nil {
+				return err
+			}
 		}
 
 		var validUpdates []LogUpdate
